@@ -390,6 +390,21 @@ def np_sum(ex, st, a, axis=None, **kw):
         ex.spec_funcs['ROWSUM'] = _spec(lambda i: RS(to_int(i)))
         ex.assumed.append('model: np.sum(M, axis=1)[i] is a function ROWSUM(i) of row i (no property of the summation is used)')
         return ArrayVal((arr.shape[0],), lambda i: RS(to_int(i)), 'real')
+    if arr.ndim == 1 and arr.dtype == 'bool':
+        # number of True cells of a boolean vector of symbolic length: COUNT<k>(i) = number of True cells at positions >= i,
+        # defined by recursion on the suffix (exact: the count is a mathematical integer <= the length)
+        n = to_int(arr.shape[0])
+        k = len([x for x in st.ghost if x.startswith('spec:COUNT')])     # per path: the k-th count of this path
+        C = z3.Function(fresh_name('COUNT%d' % k), z3.IntSort(), z3.IntSort())
+        st.assume(C(n) == 0)
+        from .engine import SpecFunc
+
+        def defn(j, C=C, arr=arr, n=n):
+            j = to_int(j)
+            return z3.Implies(z3.And(j >= 0, j < n), C(j) == C(j + 1) + z3.If(to_z3(truthy(arr.get(j))), 1, 0))
+        # one-level unfolding at every occurrence in the contract (no self-triggering axiom)
+        st.ghost['spec:COUNT%d' % k] = ex.spec_funcs['COUNT%d' % k] = SpecFunc(lambda j, C=C: C(to_int(j)), 'COUNT%d' % k, defn=defn)
+        return C(z3.IntVal(0))
     raise Unsupported('sum over symbolic length (use a contract-level ghost)')
 
 
